@@ -345,6 +345,7 @@ class Abstraction(object):
         if kind == "heartbeat":
             if st["ends"] or (b["bm"] is not None and a["bm"] is None):
                 inputs.append(["backstop"])
+
             else:
                 return None
         elif kind in ("batch-event", "batch-launch"):
@@ -412,7 +413,7 @@ class Abstraction(object):
         for e in echoes:
             inputs.append(["echo", e[0], e[1]])
         # observable outcomes of the step
-        exp["failed"], exp["succeeded"] = self.outcomes(st, b, a, eng, trig, exp.get("accepted") is False)
+        exp["failed"], exp["succeeded"] = self.outcomes(st, b, a, eng, trig, exp.get("accepted") is False, kind == "heartbeat")
         exp["partial"] = a["bm"] is None
         exp["state"] = self.state_view(a)
         return {"inputs": inputs, "expect": exp}
@@ -608,7 +609,7 @@ class Abstraction(object):
             cur = self.info[cur[0]]["parent"]
         return d
 
-    def outcomes(self, st, b, a, eng, trig, was_dropped):
+    def outcomes(self, st, b, a, eng, trig, was_dropped, backstop=False):
         """attempts that failed (with which error) / joins that handed over in this step, as the engine shows them"""
         failed, succeeded, complete = [], [], []
         chain = set()
@@ -627,7 +628,8 @@ class Abstraction(object):
             elif ra is not None and ra.get("terminated") is not None and (rb is None or rb.get("terminated") is None):
                 # newly terminated: by the Task.Terminated callback of a cancel, unless the step's own event was dropped
                 # (which marks the attempts of its chain)
-                if not (was_dropped and eid in chain):
+                # (… or the back stop ran, which marks every attempt)
+                if not (was_dropped and eid in chain) and not backstop:
                     failed.append([self.ids[eid], "tt"])
             if ra is not None and all(is_data(x) for x in ra["results"]) and \
                     (rb is None or not all(is_data(x) for x in rb["results"])):
